@@ -43,3 +43,15 @@ def declare(reg):
     b = reg.properties.setdefault("C04", {}).setdefault("bounded", [])
     b.append({"name": "flag-helpers-exact", "module": "harness.flags", "func": "FlagHelpers"})
     b.append({"name": "flag-map", "module": "harness.flags", "func": "FlagMap"})
+    # the exact function flag_to_seq computes (used by callers; the property-level clauses above carve out the known findings)
+    seq = "f"
+    for k, v in SYS.items():
+        seq = f"ite(f == {lit(k)}, {lit(v)}, {seq})"
+    reg.specfn("seq_of_flag", "f: str", "str", seq)
+    reg.contracts["flag_to_seq"].ensures["exact"] = "result == seq_of_flag(flag)"
+    reg.contract(
+        P, "flags_to_seqs", params={"flags": "opt[list[str]]"}, ret="list[str]",
+        ensures={"mapped": "ite(is_none(flags), len(result) == 0, len(result) == len(some(flags)) and "
+                           "forall(lambda j: implies(0 <= j and j < len(result), result[j] == seq_of_flag(some(flags)[j]))))"},
+        props=["C04"],
+    )
